@@ -145,8 +145,15 @@ def _r(a):
     return repr(a)
 
 class Stmt(object):
-    def __init__(self, family, kind, fn, args, kwargs, ordered, is_core):
+    def __init__(self, family, kind, fn, args, kwargs, ordered, is_core, uses=()):
         self.family, self.kind, self.fn, self.args, self.kwargs, self.ordered, self.core = family, kind, fn, args, kwargs, ordered, is_core
+        # what this statement shares with others: its function (one code object per generator / lambda in it),
+        # the module-level lambdas it is given, the module-level query texts it uses
+        shared = set([family]) | set(uses)
+        for a in args:
+            for i in (a if isinstance(a, (tuple, list)) else (a,)):
+                if callable(i) and not isinstance(i, type): shared.add(_r(i))
+        self.shares = frozenset(shared)
         self.name = '%s(%s)' % (family, ', '.join([_r(a) for a in args] + ['%s=%s' % (k, _r(v)) for k, v in sorted(kwargs.items())]))
     def execute(self):
         args = [a.resolve() if isinstance(a, ENT) else a for a in self.args]
@@ -155,7 +162,7 @@ class Stmt(object):
 
 POOL = []
 def S(kind, fn, *args, **kw):
-    st = Stmt(fn.__name__, kind, fn, args, kw.get('kw', {}), kw.get('ordered', False), kw.get('core', False))
+    st = Stmt(fn.__name__, kind, fn, args, kw.get('kw', {}), kw.get('ordered', False), kw.get('core', False), kw.get('uses', ()))
     assert st.name not in [s.name for s in POOL], st.name
     POOL.append(st)
 
@@ -219,27 +226,27 @@ S('in-list-parameter', in_names, ['bob', 'eve', 'al'])
 QS_AGE = 'p for p in Person if p.age > x'
 def qs_global(): return select(QS_AGE)                  # x is the module global (18)
 def qs_local(v): x = v; return select(QS_AGE)           # the global is shadowed by a local
-S('query-string-at-several-call-sites', qs_global, core=True)
-S('query-string-at-several-call-sites', qs_local, 40, core=True)
-S('query-string-at-several-call-sites', qs_local, Decimal('30.5'))
+S('query-string-at-several-call-sites', qs_global, core=True, uses=('QS_AGE',))
+S('query-string-at-several-call-sites', qs_local, 40, core=True, uses=('QS_AGE',))
+S('query-string-at-several-call-sites', qs_local, Decimal('30.5'), uses=('QS_AGE',))
 def qs_dicts(g, l): return select(QS_AGE, g, l)          # explicit name spaces
-S('query-string-at-several-call-sites', qs_dicts, {'Person': Person, 'x': 44}, {})
-S('query-string-at-several-call-sites', qs_dicts, {'Person': Group, 'x': 1}, {'p': 1})
+S('query-string-at-several-call-sites', qs_dicts, {'Person': Person, 'x': 44}, {}, uses=('QS_AGE',))
+S('query-string-at-several-call-sites', qs_dicts, {'Person': Group, 'x': 1}, {'p': 1}, uses=('QS_AGE',))
 FS_CROSS = 'x.age > p.age'
 def fs_x_is_query_var(p): return select(x for x in Person).where(FS_CROSS)      # p external, x query variable
 def fs_p_is_query_var(x): return select(p for p in Person).where(FS_CROSS)      # x external, p query variable
-S('filter-string-external-vs-query-variable', fs_x_is_query_var, ENT('Person', 1), core=True)
-S('filter-string-external-vs-query-variable', fs_p_is_query_var, ENT('Person', 1), core=True)
+S('filter-string-external-vs-query-variable', fs_x_is_query_var, ENT('Person', 1), core=True, uses=('FS_CROSS',))
+S('filter-string-external-vs-query-variable', fs_p_is_query_var, ENT('Person', 1), core=True, uses=('FS_CROSS',))
 QS_FUNC = 'p.id for p in Person if f(p.age, 30) == 30'
 def qs_func_min(): f = min; return select(QS_FUNC)
 def qs_func_max(): f = max; return select(QS_FUNC)
-S('query-string-at-several-call-sites', qs_func_min)
-S('query-string-at-several-call-sites', qs_func_max)
+S('query-string-at-several-call-sites', qs_func_min, uses=('QS_FUNC',))
+S('query-string-at-several-call-sites', qs_func_max, uses=('QS_FUNC',))
 LS_AGE = 'lambda p: p.age > x'
 def ls_select(v): x = v; return Person.select(LS_AGE)
 def ls_filter(v): x = v; return select(p for p in Person if p.nick is not None).filter(LS_AGE)
-S('query-string-at-several-call-sites', ls_select, 30)
-S('query-string-at-several-call-sites', ls_filter, 30)
+S('query-string-at-several-call-sites', ls_select, 30, uses=('LS_AGE',))
+S('query-string-at-several-call-sites', ls_filter, 30, uses=('LS_AGE',))
 
 # -- chained filter / where / order_by with shared lambdas
 L_ADULT = lambda p: p.age >= 30
@@ -380,8 +387,8 @@ S('database-select', db_select, 40, core=True)
 S('database-select', db_select, '40')
 def db_select_global(): return db.select('select name, age from person where age > $x and age < $(x+20)')   # global x
 def db_select_local(x): return db.select('select name, age from person where age > $x and age < $(x+20)')   # same text, local x
-S('database-select', db_select_global)
-S('database-select', db_select_local, 30)
+S('database-select', db_select_global, uses=('DBSEL_X',))
+S('database-select', db_select_local, 30, uses=('DBSEL_X',))
 def db_select_literals(i): return db.select("select '%', '%%', '$$', '%s', name from person where id = $i")
 S('database-select', db_select_literals, 2)
 def db_get(v): return db.get('select count(*) from person where age >= $v')
